@@ -125,8 +125,9 @@ def table() -> dict[str, Prop]:
              "so those blocks contain and end on non-blank lines (NONBLANK)",
              [MP.rule_map, LC.rule_linecap],
              not_decided="b < e, non-blank first line and non-blank last line of the other block kinds, nesting inside the parent's map, ordering of siblings and coverage of "
-                         "every non-blank line (line arithmetic over runtime tables); the line count of a reference definition "
-                         "(a count of newlines, exempted with its reason in LINECAP)"))
+                         "every non-blank line (line arithmetic over runtime tables); for the line count of a reference definition only its "
+                         "provenance is decided - it sums line-feed counts of the raw source text (NLCOUNT) - not that the sum is the "
+                         "number of lines the definition occupies"))
     from .rules import ctx_rules as CX
     reg(Prop("C07", "no parser state leaks out of a block rule: blkIndent, listIndent, lineMax and every line-table cell a rule writes "
              "hold their entry values at every return of every block rule and of the dispatcher (CTX); the two unrestored fields "
@@ -187,10 +188,12 @@ def table() -> dict[str, Prop]:
              "and later ones go to duplicate_refs (REFKEY); normalizeReference trims, collapses blanks and applies a full case "
              "fold (FOLD, RESUB); definition, link and image share the destination / title helpers and normalizeLink (SIB); the "
              "recorded map of a definition obeys the map identity (MAP); the definition's text is cut by getLines, never by a raw "
-             "slice across lines that would keep the prefixes of enclosing containers (ONELINE)",
+             "slice across lines that would keep the prefixes of enclosing containers (ONELINE); the number of lines a definition "
+             "claims sums line-feed counts of its raw source text only, never of decoded text (NLCOUNT)",
              [RF.rule_env, RF.rule_refkey, RF.rule_fold, RF.rule_resub, RF.rule_sib, MP.rule_map],
              not_decided="that parsing with a seeded env equals parsing the prepended definitions (equality of two parses), that the "
-                         "reference form and the inline form yield equal tokens, and line counting inside multi-line titles"))
+                         "reference form and the inline form yield equal tokens, and that the line count of a multi-line definition is "
+                         "exact (only its provenance is decided)"))
     from .rules import typo_rules as TY
     reg(Prop("C18", "renderer-only options (xhtmlOut, breaks, langPrefix, highlight) are read only by their documented render methods, "
              "by nothing in the parse phase, and the self-closing spelling hangs on xhtmlOut's true branch at every site (OPTREAD); "
@@ -231,6 +234,8 @@ def table() -> dict[str, Prop]:
     props["C04"].rules.append(TK.rule_move)
     from .rules import partial_rules as PT
     props["C01"].rules.append(PT.rule_partial)         # dict reads, optional regex matches, index / remove / next stay in their domain
+    props["C03"].rules.append(RF.rule_nlcount)         # the lines a reference definition claims are the line feeds of its source text
+    props["C16"].rules.append(RF.rule_nlcount)
     props["C03"].rules.append(MP.rule_nonblank)        # inline containers / reference definitions contain and end on non-blank lines
     props["C03"].rules.append(TT.rule_unisplit)        # lines are split at LF only (no Unicode-aware splitlines on the source)
     props["C17"].rules.append(TT.rule_unisplit)
